@@ -1,27 +1,29 @@
 #!/usr/bin/env python3
-"""mutcheck.py [--tier quick] [--suite] <PROP|all> [name...]: apply each recorded mutant (mutants/<PROP>/*.diff, seeded/<id>/patch.diff with --seeded)
-to /repo, run the property's check, expect exit 1, revert. Prints a table. --suite also runs the repo's own tests on the mutant (must pass)."""
-import glob, json, os, subprocess, sys, time
+"""mutcheck.py [--tier quick] [--suite] [--seeded] [--inplace] [-j N] <PROP|all> [name...]
+
+Applies each recorded change (mutants/<PROP>/*.diff, or seeded/<id>/patch.diff with --seeded) to a scratch git worktree
+of /repo (or, with --inplace, to /repo itself exactly as the task brief describes: git apply, run, git checkout), runs the
+property's check against it and expects exit 1. --suite also runs the repository's own tests on the change (they must pass
+for the change to count as "survives the existing tests")."""
+import concurrent.futures, glob, json, os, shutil, subprocess, sys, tempfile, time
 args = sys.argv[1:]
-tier = "quick"
-suite = False
-seeded = False
-while args and args[0].startswith("--"):
+tier, suite, seeded, inplace, jobs = "quick", False, False, False, 4
+while args and args[0].startswith("-"):
     a = args.pop(0)
     if a == "--tier": tier = args.pop(0)
     elif a == "--suite": suite = True
     elif a == "--seeded": seeded = True
+    elif a == "--inplace": inplace = True; jobs = 1
+    elif a == "-j": jobs = int(args.pop(0))
 prop = args[0]; names = args[1:]
 env = dict(os.environ, GOFLAGS="-mod=mod", GOPROXY="off", GOSUMDB="off", GOTOOLCHAIN="local")
-def clean():
-    return subprocess.run(["git", "-C", "/repo", "status", "--porcelain"], stdout=subprocess.PIPE, text=True).stdout.strip() == ""
-assert clean(), "/repo not clean"
 todo = []
 if seeded:
     for d in sorted(glob.glob("/verif/seeded/*/")):
         meta = json.load(open(os.path.join(d, "meta.json")))
-        if prop in ("all", meta["property"]) and (not names or os.path.basename(d.rstrip("/")) in names):
-            todo.append((meta["property"], os.path.basename(d.rstrip("/")), os.path.join(d, "patch.diff")))
+        n = os.path.basename(d.rstrip("/"))
+        if prop in ("all", meta["property"]) and (not names or n in names):
+            todo.append((meta["property"], n, os.path.join(d, "patch.diff")))
 else:
     props = sorted(os.listdir("/verif/mutants")) if prop == "all" else [prop]
     for p in props:
@@ -29,24 +31,42 @@ else:
             n = os.path.basename(f)[:-5]
             if not names or n in names:
                 todo.append((p, n, f))
-res = []
-for p, n, f in todo:
+
+def one(item):
+    p, n, f = item
+    t0 = time.time()
+    if inplace:
+        assert subprocess.run(["git", "-C", "/repo", "status", "--porcelain"], stdout=subprocess.PIPE, text=True).stdout.strip() == "", "/repo not clean"
+        repo = "/repo"
+        e = dict(env)
+    else:
+        repo = tempfile.mkdtemp(prefix="mutwt-")
+        os.rmdir(repo)
+        subprocess.run(["git", "-C", "/repo", "worktree", "add", "--detach", "-q", repo, "HEAD"], check=True)
+        out = tempfile.mkdtemp(prefix="mutout-")
+        e = dict(env, VERIF_REPO=repo, VERIF_ALT_OUT=out)
     try:
-        r = subprocess.run(["git", "-C", "/repo", "apply", f])
+        r = subprocess.run(["git", "-C", repo, "apply", f])
         if r.returncode != 0:
-            res.append((p, n, "APPLY-FAILED", 0)); continue
+            return (p, n, "APPLY-FAILED", 0, [])
         st = ""
         if suite:
-            r = subprocess.run(["go", "test", "-vet=off", "-count=1", "./..."], cwd="/repo", env=env, stdout=subprocess.PIPE, stderr=subprocess.STDOUT, text=True)
+            r = subprocess.run(["go", "test", "-vet=off", "-count=1", "-timeout", "120s", "./..."], cwd=repo, env=env, stdout=subprocess.PIPE, stderr=subprocess.STDOUT, text=True)
             st = " suite=" + ("pass" if r.returncode == 0 else "FAIL")
-        t0 = time.time()
-        r = subprocess.run(["./check", p, "--tier", tier], cwd="/verif", env=env, stdout=subprocess.PIPE, stderr=subprocess.STDOUT, text=True)
+        r = subprocess.run(["./check", p, "--tier", tier], cwd="/verif", env=e, stdout=subprocess.PIPE, stderr=subprocess.STDOUT, text=True)
         keys = [l for l in r.stdout.splitlines() if l.startswith("#   key=")]
-        res.append((p, n, {0: "MISSED", 1: "caught", 2: "INCONCLUSIVE"}.get(r.returncode, "rc=%d" % r.returncode) + st, time.time() - t0, keys[:1]))
+        return (p, n, {0: "MISSED", 1: "caught", 2: "INCONCLUSIVE"}.get(r.returncode, "rc=%d" % r.returncode) + st, time.time() - t0, keys[:1])
     finally:
-        subprocess.run(["git", "-C", "/repo", "checkout", "--", "."])
-        subprocess.run(["git", "-C", "/repo", "clean", "-fdq"])
+        if inplace:
+            subprocess.run(["git", "-C", "/repo", "checkout", "--", "."])
+            subprocess.run(["git", "-C", "/verif", "checkout", "--", "evidence"], stderr=subprocess.DEVNULL)
+        else:
+            subprocess.run(["git", "-C", "/repo", "worktree", "remove", "--force", repo])
+            shutil.rmtree(out, ignore_errors=True)
+
+with concurrent.futures.ThreadPoolExecutor(jobs) as ex:
+    res = list(ex.map(one, todo))
 for x in res:
-    print("%-4s %-40s %-14s %5.1fs %s" % (x[0], x[1], x[2], x[3], (x[4][0][:150] if len(x) > 4 and x[4] else "")))
-# replays produced by mutants are not evidence of anything on the real tree
-subprocess.run(["git", "-C", "/verif", "checkout", "--", "evidence"], stderr=subprocess.DEVNULL)
+    print("%-4s %-40s %-22s %6.1fs %s" % (x[0], x[1], x[2], x[3], (x[4][0][:160] if x[4] else "")))
+missed = [x for x in res if not x[2].startswith("caught")]
+print("%d/%d caught" % (len(res) - len(missed), len(res)))
